@@ -88,7 +88,7 @@ def _build_blocks(env: Env, gen, parents: Tuple[int, ...], keys: List[int], vals
     for i, p in enumerate(parents):
         par = all_blocks[p]
         h = heights[p] + 1
-        cb = dt.Transaction([dt.Input(dt.OutputReference(ZERO32, 0), sg.CoinbaseData(h, bytes([datas[i]])))], [dt.Output(vals[i], K[keys[i]])])
+        cb = dt.Transaction([dt.Input(dt.OutputReference(ZERO32, datas[i]), sg.CoinbaseData(h, b"\x00"))], [dt.Output(vals[i], K[keys[i]])])
         txs = [cb]
         if incl[i] == 1:
             txs.append(pending)
@@ -144,9 +144,9 @@ def store_roundtrip(parents: Tuple[int, ...], flush_mask: int, sym: Tuple[int, .
         if spends is not None and list(incl) != list(spends):
             return True          # which extra transaction each block carries is a case split of this instance
         for i, (k, v, d) in enumerate(zip(keys, vals, datas)):
-            if not (0 <= k <= 1 and 1 <= v <= 2 * 10 ** 9 and d == 0):
+            if not (0 <= k <= 1 and 1 <= v <= 2 * 10 ** 9 and 0 <= d <= 2):
                 return True
-            if i not in sym and not (k == i % 2 and v == 100 + i and (spends is not None or incl[i] == 0)):
+            if i not in sym and not (k == i % 2 and v == 100 + i and d == 0 and (spends is not None or incl[i] == 0)):
                 return True
         if not _valid_history(parents, incl):
             return True          # not a valid history (an output spent twice along one chain)
@@ -255,6 +255,54 @@ def store_roundtrip(parents: Tuple[int, ...], flush_mask: int, sym: Tuple[int, .
     if only_known:
         w["k1"], w["v1"] = w["k0"], w["v0"]
     return check_store, w
+
+
+def concurrent_add(twin: bool = False, real: bool = False):
+    """A block handed to the store by another thread while a flush is writing (modelled: the add is executed inside the write
+    whenever the store's lock is free at that moment, otherwise right after the flush) is written by the next flush."""
+    env, bs, su, gen = _env(real)
+
+    def check_concurrent_add(v0: int, v1: int) -> bool:
+        """
+        post: _
+        """
+        if not (1 <= v0 <= 2 * 10 ** 9 and 1 <= v1 <= 2 * 10 ** 9):
+            return True
+        if not real:
+            from symlib.stubs.oracles import LRO, install_hashes
+            install_hashes(LRO(0x07), None, None)
+        g, blocks, heights, pending = _build_blocks(env, gen, (0, 1), [0, 1], [v0, v1], [0, 0], [0, 0])
+        store, handle = _new_store(env, bs, real)
+        try:
+            fired: List[int] = []
+            real_write = store.write_blocks_to_disk
+
+            def write_then_other_thread(bl):
+                real_write(bl)
+                if not fired and not store.lock.locked():
+                    fired.append(1)
+                    store.add_block_to_buffer(blocks[1])
+            store.write_blocks_to_disk = write_then_other_thread
+            store.add_block_to_buffer(blocks[0])
+            store.flush_blocks_to_disk()
+            if not fired:
+                store.add_block_to_buffer(blocks[1])      # the other thread was blocked until the flush finished
+            store.write_blocks_to_disk = real_write
+            store.flush_blocks_to_disk()
+            if twin:
+                return False
+            ids = [b.hash() for b in store.read_blocks_from_disk()]
+            return blocks[0].hash() in ids and blocks[1].hash() in ids and len(store.write_buffer) == 0
+        finally:
+            if real:
+                try:
+                    store.close()
+                except Exception:
+                    pass
+                import shutil
+                shutil.rmtree(handle, ignore_errors=True)
+
+    return check_concurrent_add, {"v0": 5, "v1": 6}
 
 
 class _NoFiles:
@@ -401,6 +449,7 @@ def obligations(tier: str, known: List[str]) -> List[Ob]:
                         C_1 + "; " + C_2, "store_roundtrip",
                         {"parents": parents, "flush_mask": mask, "sym": tuple(sym), "spends": tuple(sp), "exclude_known": excl}, timeout=T))
     obs.append(twin_of([o for o in obs if o.name.startswith("roundtrip[parents=00,")][0], timeout=300))
+    obs.append(Ob("block-added-while-a-flush-is-writing", C_1, "concurrent_add", {}, timeout=T))
     obs.append(Ob("finding[shared-transaction-id]", C_1, "store_roundtrip",
                   {"parents": (0, 0), "flush_mask": 0, "sym": (0, 1), "spends": (0, 0), "exclude_known": False, "only_known": True},
                   expect="refuted", role="finding", finding_key=KEY_F2, timeout=600))
